@@ -16,7 +16,7 @@ from . import analysis
 
 rule("C10.b", "on every path from the entry of a set-up / report method to a read of self.timegrid.restricted / "
               ".discount_factors the cache has been (re-)established for this asset, with no intervening call that "
-              "re-establishes it for another asset", floor=12)
+              "re-establishes it for another asset", floor=12, props=["C10", "C16"])
 rule("C10.c", "discount factors are created before the sub-grid that copies them, and every sub-grid branch copies them", floor=3)
 
 ENTRY_METHODS = ("setup_optim_problem", "dcf", "fill_level")
